@@ -38,6 +38,36 @@ def make_cc(ev, proj, process, projectile, pos=None):
     return ev.call(ev.getattr(S.ClassVal(ev, cls), "from_dict", None), [th, ob], {})
 
 
+def check_ckm_card(rep, proj):
+    """The card may spell the CKM matrix as a string (nine numbers, row by row: Vud Vus Vub Vcd ...) or as a list: either way the object the
+    couplings read holds the SQUARED element of row u/c/t and column d/s/b where the lookups by flavour name and by pid expect it."""
+    cls = proj.cls(CC_MOD, "CouplingConstants")
+    rows, cols = "uct", "dsb"
+    for spelling, value in (("string", "1 2 3 4 5 6 7 8 9"), ("list", [1, 2, 3, 4, 5, 6, 7, 8, 9]), ("string of decimals", "0.5 1.5 2.5 3.5 4.5 5.5 6.5 7.5 8.5")):
+        construct = f"{cls.fq}.from_dict[CKM given as {spelling}]"
+        ev = S.Evaluator(proj, lenient_ext=True)
+        cell = R.Cell(process="CC", projectile="neutrino")
+        th, ob = R.theory_card(cell), R.observables_card(cell)
+        th["CKM"] = value
+        nums = [Fraction(x) for x in (value.split(" ") if isinstance(value, str) else value)]
+        try:
+            cc = ev.call(ev.getattr(S.ClassVal(ev, cls), "from_dict", None), [th, ob], {})
+            ckm = cc.attrs["theory_config"]["CKM"]
+            problems = []
+            for r in range(3):
+                for c in range(3):
+                    want = nums[3 * r + c] ** 2
+                    by_name = S.num_norm(ev.call(ev.getattr(ckm, "__getitem__", None), [(rows[r], cols[c])], {}))
+                    by_pid = S.num_norm(ev.call(ev.getattr(ckm, "__getitem__", None), [(2 * r + 2, 2 * c + 1)], {}))
+                    if isinstance(by_name, A.Rat) or Fraction(by_name) != want or isinstance(by_pid, A.Rat) or Fraction(by_pid) != want:
+                        problems.append(f"|V{rows[r]}{cols[c]}|^2: by name {by_name}, by pid {by_pid}, card {want}")
+            rep.check(not problems, "C02.ckm", cls.site, construct, "squared elements, row u/c/t x column d/s/b, found by name and by pid", "; ".join(problems[:3]), key=spelling)
+        except A.Undecided as e:
+            rep.undecided("C02.ckm", cls.site, construct, str(e)[:200])
+        except S.Raised as e:
+            rep.bad("C02.ckm", cls.site, construct, f"raises {e.etype}: {e.msg}", key=spelling)
+
+
 def check_tables(rep, proj):
     ev = S.Evaluator(proj, lenient_ext=True)
     cc = make_cc(ev, proj, "NC", "electron")
@@ -484,6 +514,7 @@ def run(rep, proj, tier):
 
     state.check(rep, proj, "C02.state", module_filter=lambda m: m.name in ('yadism.coefficient_functions.coupling_constants', 'yadism.coefficient_functions.kernels', 'yadism.coefficient_functions.light.kernels', 'yadism.coefficient_functions.heavy.kernels', 'yadism.coefficient_functions.intrinsic.kernels', 'yadism.coefficient_functions.asy.kernels'))
     check_tables(rep, proj)
+    check_ckm_card(rep, proj)
     check_weights(rep, proj)
     check_ww(rep, proj)
     check_lo(rep, proj, tier)
